@@ -21,6 +21,8 @@ ASSUMPTIONS = [
     "refused => over the limit is asserted only for refusals by the exposure clauses of StrategyExposure and against the most conservative documented counting (starting-price liabilities always counted, 2dp average prices)",
     "exact equality with a limit counts as within it; it is asserted only in float-exact (dyadic) scenarios, inside a 1e-6 band either verdict is accepted otherwise",
     "the consequence clause is checked only for strategies running with acknowledgement discipline and for the per-selection limit, as the property states",
+    "boundary-seeking placements: in 45% of the non-float-exact scenarios a third of the LIMIT placements are sized at run time (from the oracle's own position calculator) to land 0.2 p outside / inside the band around max_selection_exposure in which either verdict is accepted",
+    "a quarter of the scenarios run under a foreign host time zone (scenario key tz)",
 ]
 COMPONENTS = common.COMPONENTS_A
 MONITORS = [LedgerMonitor, ExposureMonitor]
